@@ -35,7 +35,9 @@ def run_batch(spec):
     if spec.get("store") == "yaml":
         tmp = tempfile.mkdtemp(prefix="verif-c17-")
         tm = mudslide.TraceManager(TraceType=mudslide.YAMLTrace, trace_kwargs={"location": tmp, "log_pitch": 64})
-    b = mudslide.BatchedTraj(model, gen, cls, tracemanager=tm, **kw)
+    if tm is not None:
+        kw["tracemanager"] = tm          # (otherwise the constructor's own default is relied upon, as most users do)
+    b = mudslide.BatchedTraj(model, gen, cls, **kw)
     res = b.compute()
     return res, model, tmp
 
@@ -45,8 +47,12 @@ def ends_of(tm):
     for t in tm.traces:
         last = t[-1]
         nh = len(t.hops) if hasattr(t, "hops") else 0
+        # the hops of a trace as ITS OWN snapshots show them (changes of the active state between consecutive snapshots)
+        snaps = list(t)
+        changes = sum(1 for a_, b_ in zip(snaps[:-1], snaps[1:]) if a_["active"] != b_["active"])
         out.append(dict(weight=float(t.weight), ndim=len(last["position"]), active=int(last["active"]),
-                        pos0=float(last["position"][0]), nhops=nh))
+                        pos0=float(last["position"][0]), nhops=nh, changes=changes,
+                        tail_hop=bool(nh and hasattr(t, "hops") and t.hops[-1]["time"] == last["time"])))
     return out
 
 
@@ -55,11 +61,19 @@ def oracle_batch(args):
     """the outcome table equals sum_t w_t 1[t ends on (state, side)] / sum_t w_t: entries in [0,1], total 1,
     invariant under reordering; counts() is the unweighted sum; the printed hop histogram matches the traces"""
     spec = dict(args)
+    if spec.get("store") != "yaml":
+        # another batch was run earlier in the same process, also with the default trace manager (as readme_example.py does):
+        # the batch judged below must hand back ITS trajectories only
+        warm = dict(spec, samples=1, max_steps=3, cls="TrajectorySH" if spec["cls"] == "EvenSamplingTrajectory" else spec["cls"], gen=None)
+        warm.pop("zeta_list", None)
+        run_batch(warm)
     tm, model, tmp = run_batch(spec)
     try:
         ends = ends_of(tm)
         nst = model.nstates()
         problems = []
+        if spec["cls"] != "EvenSamplingTrajectory" and spec.get("gen") != "normal" and len(ends) != int(spec["samples"]):
+            problems.append("the batch of %d trajectories handed back %d traces" % (int(spec["samples"]), len(ends)))
         W = sum(e["weight"] for e in ends)
         want = np.zeros((nst, 2))
         cnt = np.zeros((nst, 2))
@@ -74,6 +88,12 @@ def oracle_batch(args):
             problems.append("entries outside [0,1] or not summing to one: %r" % (got.tolist(),))
         if any(e["weight"] < 0 for e in ends):
             problems.append("negative trace weight")
+        if spec.get("every", 1) == 1 and spec.get("store") != "yaml":
+            for j, e in enumerate(ends):
+                # (a child stopped the moment it is spawned logs its hop at the time of its last snapshot: one loose event allowed)
+                if e["nhops"] != e["changes"] and not (e["nhops"] == e["changes"] + 1 and e["tail_hop"]):
+                    problems.append("trace %d lists %d hop events, its own snapshots show %d changes of the active state" % (j, e["nhops"], e["changes"]))
+                    break
         # reordering
         perm = np.random.Generator(np.random.PCG64(spec["seed"])).permutation(len(tm.traces))
         keep = list(tm.traces)
